@@ -3,7 +3,8 @@ A small traversal tactic for invariants of the connection machine (a copy of Con
 
 A goal `P … x` (`x : Conn` the LAST argument of the predicate `P`) is reduced by looking at the head
 symbol of `x`:
-  * `f …`           → `apply P_f'` if that exists and applies, else `apply P_f` (lemmas named after
+  * `f …`           → `apply P_f'` if that exists, applies, and its equational side conditions are
+                      closed by `rfl`/`assumption`/`decide`; else `apply P_f` (lemmas named after
                       predicate and function)
   * `if … then … else …` → both branches (`pred_ite`, no `split`: `split` runs `simp` on the whole goal)
   * a `match`       → `split`
@@ -108,10 +109,28 @@ elab "c4step" : tactic => withMainContext do
       let lem := lemOf short
       let lem' := lemOf (short ++ "'")
       if (← getEnv).contains lem' then
-        try
-          evalTactic (← `(tactic| apply $(mkIdent lem')))
-          return
-        catch _ => pure ()
+        -- the primed lemma applies when its equational side conditions can be decided at once
+        let s ← saveState
+        let ok ← try
+            let others ← (do let gs ← getGoals; pure gs.tail!)
+            evalTactic (← `(tactic| apply $(mkIdent lem')))
+            let gs ← getGoals
+            let news := gs.filter fun g => !others.contains g
+            let mut good := true
+            let mut rest : List MVarId := []
+            for g' in news do
+              let ty := (← instantiateMVars (← g'.getType)).consumeMData
+              if ty.isEq then
+                setGoals [g']
+                try
+                  evalTactic (← `(tactic| first | rfl | assumption | decide))
+                catch _ => good := false
+              else rest := rest ++ [g']
+            if good then setGoals (rest ++ others)
+            pure good
+          catch _ => pure false
+        if ok then return
+        s.restore
       if (← getEnv).contains lem then
         evalTactic (← `(tactic| apply $(mkIdent lem)))
       else throwError "c4step: no lemma {lem}"
